@@ -325,8 +325,11 @@ def unary_chains_filter(term):
         mark = None
         if k == "UnaryOp":
             mark = "NOT" if t[1][0] == "Not" else "NEG"
-            if mark == "NEG" and t[2][0] in ("Integer", "Float", "Duration"):
-                mark = None       # a sign in front of a literal is part of the literal on both sides
+            inner_t = t[2]
+            while inner_t[0] == "UnaryOp" and inner_t[1][0] == "USub":
+                inner_t = inner_t[2]
+            if mark == "NEG" and inner_t[0] in ("Integer", "Float", "Duration"):
+                mark = None       # signs in front of a literal are part of the literal on both sides
         elif k == "Compare" and t[1][0] in ("Eq", "NotEq") and ("Null",) in (t[2], t[3]):
             mark = "ISNULL" if t[1][0] == "Eq" else "ISNOTNULL"
         slot = []
@@ -358,6 +361,8 @@ def unary_chains_sql(idx, tree):
         if k == "un" and n[1] in ("NOT", "-"):
             mark = "NOT" if n[1] == "NOT" else "NEG"
             inner = idx.strip(n[2])
+            while inner[0] == "un" and inner[1] == "-":
+                inner = idx.strip(inner[2])
             if mark == "NEG" and inner[0] in ("num", "interval"):
                 mark = None
         elif k == "is":
